@@ -79,7 +79,10 @@ fn parse_line(source: &[char], parser: Lrc<dyn Parser>) -> Vec<Token> {
         )
     }) {
         for token in &mut new_tokens[tag_start..] {
-            token.kind = TokenKind::Unlintable;
+            // Zero-width structural tokens (paragraph breaks) cover no text to hide.
+            if !token.span.is_empty() {
+                token.kind = TokenKind::Unlintable;
+            }
         }
     }
 
